@@ -85,6 +85,26 @@ def finish(pid, tier, seed, goals, meta, results, ok_canary, canary_info, t0):
             lines.append('VIOLATION property=%s replay=%s' % (pid, path))
         else:
             lines.append('VIOLATION property=%s replay=%s no-failing-input-found' % (pid, path))
+    # an obligation the solvers could not decide is not a violation -- unless a witness driver written for that clause observes the
+    # real code violating the property statement: then there is a failing input, and it is reported
+    still_undecided = []
+    for ob in undecided:
+        try:
+            rep = replay.attempt(pid, ob)
+        except Exception as ex:
+            rep = {'reproduced': None, 'scenario': None, 'observed': 'replay driver error: %s' % ex}
+        if rep.get('reproduced') is True:
+            os.makedirs(rdir, exist_ok=True)
+            path = os.path.join(rdir, safe(ob['id']) + '.json')
+            rec = {'property': pid, 'obligation': ob['id'], 'engine': ob['engine'], 'function': ob.get('goal'), 'clause': ob['text'],
+                   'solver': {'name': ob['backend'], 'verdict': ob['verdict'] + ' (no solver answer; the failing input comes from the witness driver of this clause)', 'seconds': ob['seconds'], 'model': None, 'log': ob.get('log')}}
+            rec.update(rep)
+            json.dump(rec, open(path, 'w'), indent=1, default=str)
+            violations += 1
+            lines.append('VIOLATION property=%s replay=%s' % (pid, path))
+        else:
+            still_undecided.append(ob)
+    undecided = still_undecided
     # thorough tier: witness drivers run on the real code; one that observes a violation of the property statement is a failing input
     witness_errors = []
     for w in meta.get('witness_replays') or []:
